@@ -551,6 +551,10 @@ func (u *Unit) evalSpecCall(env *SpecEnv, e *SExpr) Value {
 		}
 		d := u.bufData(env.old, b)
 		return boolV(Eq(u.heap(env.cur, b.Elem), Store(u.heap(env.old, b.Elem), Add(d.Ptr, i.Term), v.Term)))
+	case "cell":
+		// cell(T, q): the heap cell of element type T at absolute address q
+		t := u.elemOf(env, e.Args[0])
+		return Value{K: KNum, T: t, Term: Select(u.heap(env.st(), t), arg(1).Term)}
 	case "heapSameBelow":
 		// heapSameBelow(x): every cell allocated in the old state is unchanged
 		t := u.elemOf(env, e.Args[0])
